@@ -24,7 +24,8 @@ class CoroKilled(BaseException):
 
 
 class Coro:
-    def __init__(self, fn, name: str, trace_files=(), preempt_at=(), line_log=None):
+    def __init__(self, fn, name: str, trace_files=(), preempt_at=(), line_log=None,
+                 preempt_raw_at=(), preempt_guard=None):
         self.fn = fn
         self.name = name
         self.done = False
@@ -36,8 +37,17 @@ class Coro:
         self._yielded = threading.Semaphore(0)
         self._kill = False
         self.trace_files = tuple(trace_files)
+        # `preempt_at` indexes the *collapsed* line-event stream (an event counts only if its line
+        # is not among the last few distinct lines seen, so a 500-iteration copy loop counts once);
+        # `preempt_raw_at` indexes the raw stream (lands inside such loops).
         self.preempt_at = set(preempt_at)
+        self.preempt_raw_at = set(preempt_raw_at)
         self.line_events = 0
+        self.raw_events = 0
+        self._recent: list = []
+        self._pending_hit = False
+        # optional () -> bool: pre-emption is deferred to the next line event at which it holds
+        self.preempt_guard = preempt_guard
         self.line_log = line_log
         self.thread = threading.Thread(target=self._main, name=f"sim-{name}", daemon=True)
 
@@ -95,8 +105,23 @@ class Coro:
 
     def _line_tracer(self, frame, event, arg):
         if event == "line":
-            self.line_events += 1
-            if self.line_events in self.preempt_at:
+            self.raw_events += 1
+            hit = self.raw_events in self.preempt_raw_at
+            ln = frame.f_lineno
+            rec = self._recent
+            if ln not in rec:
+                rec.append(ln)
+                if len(rec) > 3:
+                    del rec[0]
+                self.line_events += 1
+                hit = hit or self.line_events in self.preempt_at
+            if self._pending_hit:
+                hit = True
+            if hit and self.preempt_guard is not None and not self.preempt_guard():
+                self._pending_hit = True
+                hit = False
+            if hit:
+                self._pending_hit = False
                 tag = ("line", frame.f_code.co_filename.rsplit("/", 1)[-1], frame.f_lineno)
                 if self.line_log is not None:
                     self.line_log.append((self.name,) + tag[1:])
